@@ -81,6 +81,8 @@ def run(tier):
     srcs = [b for _, _, b in broken[:: (3 if tier == "quick" else 1)]]
     srcs += [c["src"] for c in lexgen.cases(check, tier, rng)][:: (4 if tier == "quick" else 1)]
     srcs += c01.random_inputs(rng, 1500 if tier == "quick" else 20000, 14)
+    for fam_ in ("7", "5"):
+        srcs += progs.token_mutations(check, fam_, core.seed(), 150 if tier == "quick" else 2000)
     srcs = list(dict.fromkeys(srcs))
     tasks = []
     for i, s in enumerate(srcs):
